@@ -199,7 +199,9 @@ Section Model.
     end.
 
   (* ------------------------------------------------------------------ inversion_util.py *)
-  Definition reconstruction_positive_only (fuel : nat) (A : mat) (b : vec) (eps : T) (uses_p_initial : bool) : res vec :=
+  (* reconstruction_positive_only_from, keeping the way the solver loop was left (for the statement of the theorems) *)
+  Definition reconstruction_positive_only_x (fuel : nat) (A : mat) (b : vec) (eps : T) (uses_p_initial : bool)
+    : res (vec * exit_kind) :=
     match b with
     | [] => Raise InversionException
     | _ =>
@@ -209,10 +211,15 @@ Section Model.
         match pinit with
         | None => Raise InversionException                      (* LinAlgError *)
         | Some p => match fnnls fuel A b eps p with
-                    | Ok (d, _, _) => Ok d
+                    | Ok (d, ek, _) => Ok (d, ek)
                     | Raise _ => Raise InversionException       (* RuntimeError, LinAlgError, ValueError *)
                     end
         end
+    end.
+  Definition reconstruction_positive_only (fuel : nat) (A : mat) (b : vec) (eps : T) (uses_p_initial : bool) : res vec :=
+    match reconstruction_positive_only_x fuel A b eps uses_p_initial with
+    | Ok (d, _) => Ok d
+    | Raise e => Raise e
     end.
 
   (* np.allclose(a, b) with the default rtol = 1e-5, atol = 1e-8 *)
